@@ -159,3 +159,41 @@ func ZZ_C18_Blocking(q, scenario, entry int) {
 	}
 	vrt.Reach("c18-blocking-done")
 }
+
+// ZZ_C18_NonBlockingRace: non-blocking mode, the sender never dequeues, q-1 slots are taken; two writers race for the
+// last slot: exactly one is accepted, the other gets the queue-full error, and neither waits.
+func ZZ_C18_NonBlockingRace(q, entries int) {
+	tr := newZZTransport()
+	pl := NewPipeline()
+	ex := &zzParkExecutor{}
+	ch := newChannelWith(context.Background(), pl, tr, ex, 1, q, false).(*channel)
+	pl.(*pipeline).channel = ch
+	for k := 0; k < q-1; k++ {
+		n, err := ch.Write1([]byte{byte(k + 1), 0x55})
+		vrt.Assert(err == nil && n == 2, "c18-accepts-while-queue-has-room")
+	}
+	okCount, fullCount := 0, 0
+	for w := 0; w < 2; w++ {
+		w := w
+		entry := entries
+		for i := 0; i < w; i++ {
+			entry /= 8
+		}
+		entry %= 8
+		vrt.Go("w"+string(rune('0'+w)), func() {
+			n, err := zzCall(ch, entry, context.Background(), []byte{byte(0x90 + w), 0x66})
+			if err == nil {
+				vrt.Assert(n == 2, "c18-accepted-call-reports-length")
+				okCount++
+			} else {
+				vrt.Assert(err == ErrAsyncNoSpace && n == 0, "c18-queue-full-error-when-full")
+				fullCount++
+			}
+		})
+	}
+	dead := vrt.Quiesce()
+	vrt.Assert(!dead, "c18-nonblocking-never-waits")
+	vrt.Assert(okCount == 1 && fullCount == 1, "c18-exactly-the-free-slot-is-filled")
+	vrt.Assert(len(ch.writeQueue) == q, "c18-queue-holds-exactly-q")
+	vrt.Reach("c18-nonblocking-race-done")
+}
